@@ -574,47 +574,55 @@ func readFaultKind(off int64) int {
 	return kind
 }
 
-var prevProt [maxPages]uintptr
+// simulated page table fed by the mprotect seam: open addressing, never deleted
+const pageSlots = 1 << 14
+
+type pageEnt struct {
+	page, prot, prev uintptr
+	used             bool
+}
+
+var pageTab [pageSlots]pageEnt
+
+//go:norace
+func pageSlot(page uintptr) *pageEnt {
+	h := (page >> 12) * 0x9e3779b97f4a7c15
+	for i := uintptr(0); i < pageSlots; i++ {
+		e := &pageTab[(h+i)&(pageSlots-1)]
+		if !e.used {
+			e.used, e.page, e.prot, e.prev = true, page, 5, 5
+			return e
+		}
+		if e.page == page {
+			return e
+		}
+	}
+	return &pageTab[0]
+}
 
 //go:norace
 func notePageProt(page, prot uintptr) {
-	for i := 0; i < nPageProt; i++ {
-		if pageProt[i].page == page {
-			prevProt[i] = pageProt[i].prot
-			if pageProt[i].prot&2 != 0 && prot&2 == 0 {
-				anyRWX--
-			} else if pageProt[i].prot&2 == 0 && prot&2 != 0 {
-				anyRWX++
-			}
-			pageProt[i].prot = prot
-			return
-		}
+	e := pageSlot(page)
+	e.prev = e.prot
+	if e.prot&2 != 0 && prot&2 == 0 {
+		anyRWX--
+	} else if e.prot&2 == 0 && prot&2 != 0 {
+		anyRWX++
 	}
-	if nPageProt < maxPages {
-		prevProt[nPageProt] = 5
-		pageProt[nPageProt].page, pageProt[nPageProt].prot = page, prot
-		nPageProt++
-		if prot&2 != 0 {
-			anyRWX++
-		}
-	}
+	e.prot = prot
 }
 
 // unnotePageProt reverts the note for a call that is about to be failed by injection.
 //
 //go:norace
 func unnotePageProt(page uintptr) {
-	for i := 0; i < nPageProt; i++ {
-		if pageProt[i].page == page {
-			if pageProt[i].prot&2 != 0 && prevProt[i]&2 == 0 {
-				anyRWX--
-			} else if pageProt[i].prot&2 == 0 && prevProt[i]&2 != 0 {
-				anyRWX++
-			}
-			pageProt[i].prot = prevProt[i]
-			return
-		}
+	e := pageSlot(page)
+	if e.prot&2 != 0 && e.prev&2 == 0 {
+		anyRWX--
+	} else if e.prot&2 == 0 && e.prev&2 != 0 {
+		anyRWX++
 	}
+	e.prot = e.prev
 }
 
 // WritablePages returns the pages the mprotect seam believes to be writable right now.
@@ -622,23 +630,22 @@ func unnotePageProt(page uintptr) {
 //go:norace
 func WritablePages() []uintptr {
 	var out []uintptr
-	for i := 0; i < nPageProt; i++ {
-		if pageProt[i].prot&2 != 0 {
-			out = append(out, pageProt[i].page)
+	for i := range pageTab {
+		if pageTab[i].used && pageTab[i].prot&2 != 0 {
+			out = append(out, pageTab[i].page)
 		}
 	}
 	return out
 }
 
-// PageProts returns a copy of the simulated page table (pages ever passed to mprotect).
+// ResetPageTable forgets the simulated page table (used after a world restored protections itself).
 //
 //go:norace
-func PageProts() map[uintptr]uintptr {
-	m := make(map[uintptr]uintptr, nPageProt)
-	for i := 0; i < nPageProt; i++ {
-		m[pageProt[i].page] = pageProt[i].prot
+func ResetPageTable() {
+	for i := range pageTab {
+		pageTab[i] = pageEnt{}
 	}
-	return m
+	anyRWX = 0
 }
 
 // InRWXWindow reports whether some page is currently RWX according to the seam.
